@@ -1,1 +1,406 @@
-//! (reference model; owner fills this in)
+//! Reference model of Liang's hyphenation as TeX82 defines it (TeX: The Program, part 40
+//! "Hyphenation" §919-§931, part 43 "Initializing the hyphenation tables" §960-§965, and the
+//! exception dictionary §934-§940). Shared by C13 (pattern matching) and C14 (hyphenating a
+//! horizontal list).
+//!
+//! Nothing here depends on /repo. Two independent formulations of the pattern rule are kept:
+//!
+//! * `Liang::scores` - for every substring of `.word.` look the substring up in a hash map keyed by
+//!   (anchored-at-start, anchored-at-end, letters);
+//! * `Liang::scores_linear` - the definition read literally: for every pattern, for every offset,
+//!   compare letter by letter.
+//!
+//! The monitors compare both (disagreement = INCONCLUSIVE, never a verdict).
+//!
+//! Conventions. A word has letters `w[0..n]`. "Gap `i`" (0 <= i <= n) is the inter-letter position
+//! before `w[i]`; gap 0 is before the word and gap n after it. In TeX's own indexing this is
+//! `hyf[i]` ("a hyphen may follow letter hc[i]"). A *position* is a gap at which a hyphen is
+//! permitted; positions are reported as the index of the letter the hyphen precedes.
+
+use std::collections::HashMap;
+
+/// One pattern, in the form TeX stores it after §962-§965.
+#[derive(Clone, Debug, PartialEq, Eq, Hash)]
+pub struct Pattern {
+    /// The pattern began with `.` (edge-of-word delimiter, `hc[1]=0`).
+    pub start: bool,
+    /// The pattern ended with `.` (`hc[k]=0`).
+    pub end: bool,
+    pub letters: Vec<char>,
+    /// `digits[i]` = the level in the gap before `letters[i]`; `digits[len]` = after the last letter.
+    /// Always `letters.len() + 1` entries.
+    pub digits: Vec<u8>,
+}
+
+/// Why a pattern text is outside the domain in which TeX's behaviour is unambiguous.
+#[derive(Clone, Debug, PartialEq, Eq)]
+pub enum PatternError {
+    /// Two digits in a row: TeX §962 treats the second digit as a *letter* (`digit_sensed`), which
+    /// in plain TeX is a "Nonletter" error.
+    ConsecutiveDigits,
+    /// `.` somewhere other than the first or last letter position.
+    InnerDot,
+    /// No letter at all.
+    NoLetters,
+}
+
+impl Pattern {
+    /// Transcription of §962 (scan letters and digits) and §965 (the two `hyf` entries outside the
+    /// delimiters are cleared).
+    pub fn parse(text: &str) -> Result<Pattern, PatternError> {
+        // hc[1..=k] with None standing for the edge-of-word delimiter 0; hyf[0..=k].
+        let mut hc: Vec<Option<char>> = vec![];
+        let mut hyf: Vec<u8> = vec![0];
+        let mut digit_sensed = false;
+        for c in text.chars() {
+            if c.is_ascii_digit() {
+                if digit_sensed {
+                    return Err(PatternError::ConsecutiveDigits);
+                }
+                let k = hc.len();
+                hyf[k] = c as u8 - b'0';
+                digit_sensed = true;
+            } else {
+                hc.push(if c == '.' { None } else { Some(c) });
+                hyf.push(0);
+                digit_sensed = false;
+            }
+        }
+        let k = hc.len();
+        if k == 0 {
+            return Err(PatternError::NoLetters);
+        }
+        let start = hc[0].is_none();
+        let end = k >= 2 && hc[k - 1].is_none();
+        if k == 1 && start {
+            return Err(PatternError::NoLetters);
+        }
+        // §965: if hc[1]=0 then hyf[0]:=0; if hc[k]=0 then hyf[k]:=0.
+        if start {
+            hyf[0] = 0;
+        }
+        if end {
+            hyf[k] = 0;
+        }
+        let lo = if start { 1 } else { 0 };
+        let hi = if end { k - 1 } else { k };
+        if lo >= hi {
+            return Err(PatternError::NoLetters);
+        }
+        let mut letters = vec![];
+        for x in &hc[lo..hi] {
+            match x {
+                Some(c) => letters.push(*c),
+                None => return Err(PatternError::InnerDot),
+            }
+        }
+        // hyf[i] sits after hc[i] (1-based) = before hc[i+1]; with 0-based letters hc[lo..hi] the gap
+        // before letters[0] is hyf[lo].
+        let digits = hyf[lo..=hi].to_vec();
+        debug_assert_eq!(digits.len(), letters.len() + 1);
+        Ok(Pattern {
+            start,
+            end,
+            letters,
+            digits,
+        })
+    }
+
+    /// The identity TeX uses to reject "Duplicate pattern" (§963): the letter string including the
+    /// delimiters.
+    pub fn key(&self) -> (bool, bool, Vec<char>) {
+        (self.start, self.end, self.letters.clone())
+    }
+
+    pub fn to_text(&self) -> String {
+        let mut s = String::new();
+        if self.start {
+            s.push('.');
+        }
+        for (i, c) in self.letters.iter().enumerate() {
+            if self.digits[i] != 0 {
+                s.push((b'0' + self.digits[i]) as char);
+            }
+            s.push(*c);
+        }
+        if self.digits[self.letters.len()] != 0 {
+            s.push((b'0' + self.digits[self.letters.len()]) as char);
+        }
+        if self.end {
+            s.push('.');
+        }
+        s
+    }
+}
+
+/// Parse one `\hyphenation` word (§935-§939): letters, with `-` marking the permitted positions.
+/// Returns (letters, positions) where a position is the index of the letter the hyphen precedes
+/// (0..=n are all representable; 0 and n are harmless because §923 `found:` clears them).
+pub fn parse_exception(text: &str) -> (Vec<char>, Vec<usize>) {
+    let mut letters = vec![];
+    let mut pos = vec![];
+    for c in text.chars() {
+        if c == '-' {
+            if pos.last() != Some(&letters.len()) {
+                pos.push(letters.len());
+            }
+        } else {
+            letters.push(c);
+        }
+    }
+    (letters, pos)
+}
+
+#[derive(Clone, Debug, Default)]
+pub struct Liang {
+    by_key: HashMap<(bool, bool, Vec<char>), Vec<u8>>,
+    list: Vec<Pattern>,
+    max_len: usize,
+    /// word -> permitted positions; a later entry for the same word replaces the earlier one
+    /// (§940-§941: the most recent entry is found first).
+    exceptions: HashMap<Vec<char>, Vec<usize>>,
+}
+
+impl Liang {
+    pub fn new() -> Liang {
+        Default::default()
+    }
+
+    /// Returns false (and ignores the pattern) if a pattern with the same letters is already
+    /// present - TeX reports "Duplicate pattern" and keeps the first (§963).
+    pub fn add_pattern(&mut self, p: Pattern) -> bool {
+        let key = p.key();
+        if self.by_key.contains_key(&key) {
+            return false;
+        }
+        self.max_len = self.max_len.max(p.letters.len());
+        self.by_key.insert(key, p.digits.clone());
+        self.list.push(p);
+        true
+    }
+
+    /// Load a whitespace separated pattern text. Returns the number of patterns that were outside
+    /// the domain (malformed or duplicate) and therefore not loaded.
+    pub fn load_patterns(&mut self, text: &str) -> usize {
+        let mut bad = 0;
+        for t in text.split_whitespace() {
+            match Pattern::parse(t) {
+                Ok(p) => {
+                    if !self.add_pattern(p) {
+                        bad += 1;
+                    }
+                }
+                Err(_) => bad += 1,
+            }
+        }
+        bad
+    }
+
+    pub fn add_exception(&mut self, text: &str) {
+        let (w, p) = parse_exception(text);
+        if !w.is_empty() {
+            self.exceptions.insert(w, p);
+        }
+    }
+
+    pub fn num_patterns(&self) -> usize {
+        self.list.len()
+    }
+
+    pub fn patterns(&self) -> &[Pattern] {
+        &self.list
+    }
+
+    pub fn exception(&self, word: &[char]) -> Option<&Vec<usize>> {
+        self.exceptions.get(word)
+    }
+
+    /// §923-§924, formulation 1: gap-wise maximum over all pattern occurrences. `word` must already
+    /// be lower-cased (`hc[1..hn]`). Result has `n+1` entries (gaps 0..=n), *before* the
+    /// "never before the first / after the last letter" clearing.
+    pub fn scores(&self, word: &[char]) -> Vec<u8> {
+        let n = word.len();
+        let mut hyf = vec![0u8; n + 1];
+        for i in 0..n {
+            let top = n.min(i + self.max_len);
+            for j in (i + 1)..=top {
+                let sub = &word[i..j];
+                for (st, en) in [(false, false), (true, false), (false, true), (true, true)] {
+                    if (st && i != 0) || (en && j != n) {
+                        continue;
+                    }
+                    // (allocation per lookup is fine for a reference model)
+                    if let Some(d) = self.by_key.get(&(st, en, sub.to_vec())) {
+                        for (k, v) in d.iter().enumerate() {
+                            if *v > hyf[i + k] {
+                                hyf[i + k] = *v;
+                            }
+                        }
+                    }
+                }
+            }
+        }
+        hyf
+    }
+
+    /// Formulation 2: every pattern against every offset.
+    pub fn scores_linear(&self, word: &[char]) -> Vec<u8> {
+        let n = word.len();
+        let mut hyf = vec![0u8; n + 1];
+        for p in &self.list {
+            let m = p.letters.len();
+            if m > n {
+                continue;
+            }
+            for off in 0..=(n - m) {
+                if p.start && off != 0 {
+                    break;
+                }
+                if p.end && off + m != n {
+                    continue;
+                }
+                if word[off..off + m] == p.letters[..] {
+                    for k in 0..=m {
+                        if p.digits[k] > hyf[off + k] {
+                            hyf[off + k] = p.digits[k];
+                        }
+                    }
+                }
+            }
+        }
+        hyf
+    }
+
+    /// Positions from the patterns alone (odd level), with the two outer gaps excluded.
+    pub fn pattern_positions(&self, word: &[char]) -> Vec<usize> {
+        let hyf = self.scores(word);
+        (1..word.len()).filter(|i| hyf[*i] % 2 == 1).collect()
+    }
+
+    /// The permitted positions of a (lower-cased) word: the exception entry if there is one
+    /// (§930-§931: "if found, goto found" skips the patterns entirely), otherwise the patterns.
+    /// Never before the first letter, never after the last.
+    pub fn positions(&self, word: &[char]) -> Vec<usize> {
+        let n = word.len();
+        match self.exceptions.get(word) {
+            Some(p) => {
+                let mut v: Vec<usize> = p.iter().copied().filter(|i| *i >= 1 && *i < n).collect();
+                v.sort_unstable();
+                v.dedup();
+                v
+            }
+            None => self.pattern_positions(word),
+        }
+    }
+
+    /// §923 `found:` - clear `hyf[0..l_hyf-1]` and `hyf[hn-r_hyf+1..hn]`; and §891/§1091:
+    /// `l_hyf`, `r_hyf` are the `\lefthyphenmin`/`\righthyphenmin` values normalised into 1..63
+    /// (`norm_min`: h<=0 -> 1, h>=64 -> 63).
+    pub fn positions_minmax(&self, word: &[char], left_min: i32, right_min: i32) -> Vec<usize> {
+        let l = norm_min(left_min);
+        let r = norm_min(right_min);
+        let n = word.len();
+        // §899/§902: hn < l_hyf + r_hyf -> no attempt at all (same set: empty)
+        self.positions(word)
+            .into_iter()
+            .filter(|p| *p >= l && *p + r <= n)
+            .collect()
+    }
+
+    /// What the implementation under test does *today* for C13's known finding: the exception is
+    /// not a separate table but a pseudo-pattern `.word.` stored in the pattern trie, whose gaps
+    /// carry level 7 (hyphen) or 6 (no hyphen) and which is merged with the ordinary patterns by
+    /// maximum. Because it occupies the trie node of the pattern `.word.`, a real pattern with
+    /// exactly these letters and both anchors (loaded earlier) is replaced by it.
+    pub fn positions_exception_as_levels(&self, word: &[char]) -> Vec<usize> {
+        let n = word.len();
+        let Some(p) = self.exceptions.get(word) else {
+            return self.pattern_positions(word);
+        };
+        let mut hyf = vec![0u8; n + 1];
+        for pat in &self.list {
+            let m = pat.letters.len();
+            if m > n || (pat.start && pat.end && m == n) {
+                continue;
+            }
+            for off in 0..=(n - m) {
+                if (pat.start && off != 0) || (pat.end && off + m != n) {
+                    continue;
+                }
+                if word[off..off + m] == pat.letters[..] {
+                    for k in 0..=m {
+                        hyf[off + k] = hyf[off + k].max(pat.digits[k]);
+                    }
+                }
+            }
+        }
+        for (i, h) in hyf.iter_mut().enumerate() {
+            let e = if p.contains(&i) { 7 } else { 6 };
+            *h = (*h).max(e);
+        }
+        (1..n).filter(|i| hyf[*i] % 2 == 1).collect()
+    }
+}
+
+/// §1091 `norm_min`.
+pub fn norm_min(h: i32) -> usize {
+    if h <= 0 {
+        1
+    } else if h >= 64 {
+        63
+    } else {
+        h as usize
+    }
+}
+
+#[cfg(test)]
+mod tests {
+    use super::*;
+
+    fn w(s: &str) -> Vec<char> {
+        s.chars().collect()
+    }
+
+    #[test]
+    fn texbook_appendix_h() {
+        // The TeXbook, Appendix H: h0y3p0h0e2n5a4t2i0o2n
+        let mut m = Liang::new();
+        assert_eq!(m.load_patterns("hy3ph he2n hena4 hen5at 1na n2at 1tio 2io o2n"), 0);
+        let word = w("hyphenation");
+        assert_eq!(m.scores(&word), vec![0, 0, 3, 0, 0, 2, 5, 4, 2, 0, 2, 0]);
+        assert_eq!(m.scores_linear(&word), m.scores(&word));
+        assert_eq!(m.positions(&word), vec![2, 6]);
+    }
+
+    #[test]
+    fn anchors_and_outer_digits() {
+        let p = Pattern::parse("8.a1b2.9").unwrap();
+        assert_eq!(p.digits, vec![0, 1, 2]);
+        assert!(p.start && p.end);
+        let p = Pattern::parse(".1ab").unwrap();
+        assert_eq!(p.digits, vec![1, 0, 0]);
+        assert_eq!(Pattern::parse("a12b"), Err(PatternError::ConsecutiveDigits));
+        assert_eq!(Pattern::parse("a.b"), Err(PatternError::InnerDot));
+        assert_eq!(Pattern::parse("."), Err(PatternError::NoLetters));
+        assert_eq!(Pattern::parse("1"), Err(PatternError::NoLetters));
+        let mut m = Liang::new();
+        m.load_patterns(".ab1 b1a. a3a");
+        assert_eq!(m.positions(&w("abba")), vec![2, 3]);
+        assert_eq!(m.positions(&w("xabba")), vec![4]);
+        assert_eq!(m.positions(&w("aaa")), vec![1, 2]);
+    }
+
+    #[test]
+    fn exceptions_win() {
+        let mut m = Liang::new();
+        m.load_patterns("a9b");
+        m.add_exception("ab-ab");
+        assert_eq!(m.positions(&w("abab")), vec![2]);
+        assert_eq!(m.positions_exception_as_levels(&w("abab")), vec![1, 2, 3]);
+        assert_eq!(m.positions(&w("ababa")), vec![1, 3]);
+        m.add_exception("abab");
+        assert_eq!(m.positions(&w("abab")), Vec::<usize>::new());
+        assert_eq!(m.positions_minmax(&w("ababa"), 2, 3), Vec::<usize>::new());
+        assert_eq!(m.positions_minmax(&w("ababa"), 0, 2), vec![1, 3]);
+    }
+}
